@@ -59,7 +59,10 @@ def phi_1D(xx, nu=1.0, theta0=1.0, gamma=0, h=0.5, theta=None, beta=1, deme_ids=
     # maximum of -Q, which is -2*gamma.
     Qadjust = 0
     # For negative gamma, the maximum of -Q is -2*gamma.
-    if gamma < 0 and numpy.isinf(numpy.exp(-2*gamma)):
+    # (The adjustment cancels exactly, so apply it well before exp(-2*gamma)
+    # itself overflows: just below that point the integrals of exp(-Q)
+    # already do.)
+    if gamma < 0 and -2*gamma > 600:
         Qadjust = -2*gamma
 
     # For large positive gamma, the prefactor exp(Q) becomes numerically
